@@ -4,6 +4,7 @@ All 8 combinations of RFC6531_FOLLOW_RFC5322 / RFC6531_FOLLOW_RFC20 / LABELS_ALL
 the same bounded-exhaustive and corpus inputs; the records are joined per input and the documented relation is checked along
 each of the 12 edges of the option cube.  The stock Makefile is dry-run to see that the default build has all three off and
 that X=ON adds exactly -DX."""
+import os
 import collections, itertools, random
 from concurrent.futures import ThreadPoolExecutor
 from .. import core, ctx as _ctx, build, driver, gen, model as _model, addrgen as AG, oracle_local as OL
@@ -336,6 +337,32 @@ def main(tier, seed):
     for o in OPTS:
         audit("%s=ON" % o, ["%s=ON" % o], None, [o])
         audit("env:%s=ON" % o, [], {o: "ON"}, [o])
+    # every `make VAR=...` invocation the README documents, combined with every switch: variables the user is told to put on the
+    # command line (DEFS, LIBS, FORCE_IDN) must not make a switch ineffective
+    import shlex
+    documented = []
+    try:
+        for l in open(os.path.join(build.REPO, "README.md"), encoding="utf-8", errors="replace"):
+            l = l.strip()
+            if l.startswith("% make") or l.startswith("$ make") or l.startswith("make "):
+                try:
+                    words = shlex.split(l.lstrip("%$ "))[1:]
+                except ValueError:
+                    continue
+                assigns = [w for w in words if "=" in w and not w.startswith("-") and w.split("=", 1)[0] not in ("DESTDIR", "PREFIX")]
+                if assigns and assigns not in documented:
+                    documented.append(assigns)
+    except OSError:
+        pass
+    rep.counters["makefile.documented-invocations"] = len(documented)
+    for assigns in documented:
+        base_on = [a.split("=", 1)[0] for a in assigns if a.split("=", 1)[0] in OPTS and a.endswith("=ON")]
+        rest = [a for a in assigns if a.split("=", 1)[0] not in OPTS]
+        tag0 = "readme:" + " ".join(assigns)
+        audit(tag0, assigns, None, base_on)
+        if rest:
+            for o in OPTS:
+                audit("readme:%s %s=ON" % (" ".join(rest), o), rest + ["%s=ON" % o], None, [o])
     # --- the eight builds
     exes = {}
     with ThreadPoolExecutor(max_workers=4) as ex:
